@@ -86,6 +86,7 @@ Options for -V/--verify:
 """
 
 import errno
+import fileinput
 import getopt
 import gzip
 import os
@@ -761,7 +762,13 @@ def do_verify(options):
     if not repofiles:
         raise NoFiles('No files in repository')
     datfile = os.path.splitext(repofiles[0])[0] + '.dat'
-    with open(datfile) as fp:
+    # Every recorded backup file must be intact, also those recorded for
+    # other (older, or newer but lost) full backups still in the repository.
+    datfiles = [datfile] + sorted(
+        fn for fn in (os.path.join(options.repository, name)
+                      for name in os.listdir(options.repository))
+        if fn.endswith('.dat') and fn != datfile)
+    with fileinput.input(datfiles) as fp:
         for line in fp:
             fn, startpos, endpos, sum = line.split()
             startpos = int(startpos)
